@@ -149,11 +149,13 @@ def evaluate(chk, cases, tag):
         if rep and rep[0][0] != rep[0][1] and o[0] == "ok":
             chk.fail("c03-caller-context-changed", "Template.render left the caller's Context changed",
                      {"program": prog, "before": rep[0][0], "after": rep[0][1]})
-        if o[0] == "ok" and len(o[1]) > 100000:
-            # absurdly long output (never what the reference says for these small programs): no Coq literal for it
+        if o[0] == "ok" and len(o[1]) > 20000:
+            # coqc cannot parse a list literal of that length (stack overflow beyond ~25 000 elements): such an output is
+            # compared with the python port of the reference (self-checked against Coq on every other case) instead
             terms.append(None)
-            rows[-1][3] = ("err", "other:Output of %d characters" % len(o[1]))
-            rows[-1][4] = False
+            rows[-1][4] = same_outcome(o, PR.render_prog(prog))
+            rows[-1].append("python-port-only")
+            chk.dist["long-output-compared-with-python-port"] += 1
         elif o[0] == "err" and o[1].startswith("other:"):
             # hang / RecursionError / foreign exception: never what the reference says
             terms.append(None)
@@ -171,6 +173,9 @@ def evaluate(chk, cases, tag):
             rows[i][4] = j not in bad
     # self-check of the python port of the reference (used for shrinking only)
     for row in rows:
+        if len(row) > 5:
+            del row[5:]
+            continue
         if same_outcome(row[3], PR.render_prog(row[2])) != row[4]:
             chk.disagree("harness self-check: harness/c03_ref.py (python port of Core/Sem.v) and the Coq evaluation of Sem.v "
                          "disagree on whether the implementation matches", {"program": row[2], "implementation": row[3],
